@@ -21,7 +21,8 @@ LOG_P = float(np.log(1e9))
 FAMILIES = ['gauss', 'plateau', 'mixture', 'islands', 'funnel', 'corr', 'periodic', 'staircase']
 RULE = ('case = one real seeded run (families incl. -inf plateaus/islands so that zero-weight rows exist; blobs of '
         'several kinds) stopped in one of three states (finished; finished with exploration discarded; stopped in '
-        'the middle of exploration), then D = 200 (quick) / 1500 (thorough) draws of posterior(equal_weight=True, '
+        'the middle of exploration; every second sampler writes a checkpoint file and every fourth is a new object resumed '
+        'from it), then D = 200 (quick) / 1500 (thorough) draws of posterior(equal_weight=True, '
         'equal_weight_boost=b, return_blobs=True) for each b in {0.3, 1, 1.7, 3, 10}. Every draw: rows are the '
         'weighted rows in original order with multiplicity floor(r) or floor(r)+1 (exactly floor(r) for integer r), '
         'no repeats for b <= 1, log_l/blobs of repeats identical, weights all -log n, weighted posterior and '
@@ -41,7 +42,7 @@ def gen_cases(tier, seed):
                                       prior=['func', 'Prior_array', 'func_inplace'][i % 3],
                                       blobs=['float', 'none', 'multi', 'array', 'struct', 'int'][i % 6],
                                       vectorized=(i % 4 != 3))
-        cfg = workloads.gen_cfg(rng, pspec, pool='none', n_batch=[100, 50, 16][i % 3], filepath=False)
+        cfg = workloads.gen_cfg(rng, pspec, pool='none', n_batch=[100, 50, 16][i % 3], filepath=bool(i % 2))
         cfg['n_eff'] = int(rng.choice([300, 600, 1200]))
         cases.append({'i': i, 'seed': seed, 'prob': pspec, 'cfg': cfg, 'state': ['final', 'discard', 'mid'][i % 3],
                       'draws': 200 if tier == 'quick' else 1500})
@@ -56,15 +57,20 @@ def run_case(spec):
     prob = workloads.Problem(spec['prob'])
     cfg = spec['cfg']
     obs = dict(draws=0, rows_returned=0, weighted_rows=0, zero_weight_rows=0, rows_with_fractional_r=0,
-               z_tests=0, z_abs_max=0.0, bernstein_ratio_max=0.0, boosts_completed=0, repeats_seen=0)
+               z_tests=0, resumed_samplers=0, file_backed_samplers=0, z_abs_max=0.0, bernstein_ratio_max=0.0, boosts_completed=0, repeats_seen=0)
     viols = []
     worst = {}
+    obs['file_backed_samplers'] = int(bool(cfg.get('filepath')))
 
     def bad(key, what, **kw):
         if key not in [v['key'] for v in viols]:
             viols.append(dict(key=key, what=what, case=samplercase.case_key(spec), state=spec['state'], **kw))
 
-    s = workloads.make_sampler(prob, cfg)
+    import tempfile
+    import os
+    tmpdir = tempfile.mkdtemp(prefix='nmon-c14-')
+    path = os.path.join(tmpdir, 'ck.hdf5') if cfg.get('filepath') else None
+    s = workloads.make_sampler(prob, cfg, filepath=path, resume=False)
     try:
         with warnings.catch_warnings(), np.errstate(all='ignore'):
             warnings.simplefilter('ignore')
@@ -72,6 +78,11 @@ def run_case(spec):
                 s.run(n_like_max=8 * cfg['n_live'] + 3 * cfg['n_batch'], **workloads.run_kwargs(cfg))
             else:
                 s.run(n_like_max=40000, **workloads.run_kwargs(cfg, discard_exploration=(spec['state'] == 'discard')))
+            if path is not None and spec['i'] % 4 == 3 and os.path.exists(path):
+                # draws from a sampler object resumed from its checkpoint
+                workloads.close_sampler(s)
+                s = workloads.make_sampler(prob, cfg, filepath=path, resume=True)
+                obs['resumed_samplers'] = 1
             if sum(len(p) for p in s.points) == 0 or np.sum(s.shell_n) == 0:
                 return {'status': 'skipped', 'reason': 'empty view', 'obs': obs}
             has_blobs = s.blobs is not None
@@ -177,6 +188,8 @@ def run_case(spec):
         return {'status': 'skipped', 'reason': repr(e), 'obs': obs}
     finally:
         workloads.close_sampler(s)
+        import shutil
+        shutil.rmtree(tmpdir, ignore_errors=True)
     res = {'obs': obs, 'nontrivial': n_nontrivial > 0, 'nontrivial_count': n_nontrivial,
            'key': samplercase.case_key(spec) + '|' + spec['state'],
            'sample': {'state': spec['state'], 'weighted_rows': n, 'zero_weight_rows': obs['zero_weight_rows'],
